@@ -223,7 +223,9 @@ def check_point_reader_exact_len(ctx, P, rs, types):
 
 
 _SWALLOW = ("unwrap_or", "unwrap_or_default", "unwrap_or_else")
-_FALLIBLE = ("combine_shares_group", "combine_shares", "core_combine_signature_shares", "core_combine_public_key_shares", "as_group_element", "as_field_element", "from_bytes", "from_repr", "from_slice")
+# (serde's `next_element` / `next_value` among them: an element the document does not have is a truncated document, not a
+# default value)
+_FALLIBLE = ("combine_shares_group", "combine_shares", "core_combine_signature_shares", "core_combine_public_key_shares", "as_group_element", "as_field_element", "from_bytes", "from_repr", "from_slice", "next_element", "next_element_seed", "next_value", "next_value_seed", "next_entry")
 
 
 def check_no_swallowed_decoder_errors(ctx, P, rule="E4.no-swallow"):
